@@ -941,7 +941,33 @@ export class RegexRuntype extends BaseRuntype {
   }
   schema(_ctx: SchemaContext): JSONSchema7 {
     // `pattern` is a regular expression, not the TypeScript spelling of the template literal type
-    return annotateSchema(this.metadata, { type: "string", pattern: this.regex.source });
+    return annotateSchema(this.metadata, { type: "string", pattern: RegexRuntype.patternOf(this.regex) });
+  }
+  // A JSON Schema pattern carries no flags. The validator's expression may have the dotAll flag (a
+  // `${string}` hole matches line breaks as well): spell every unescaped `.` outside a character class
+  // as [\s\S] then, so that the pattern accepts the strings the validator accepts.
+  private static patternOf(regex: RegExp): string {
+    const src = regex.source;
+    if (!regex.dotAll) {
+      return src;
+    }
+    let out = "";
+    let inClass = false;
+    for (let i = 0; i < src.length; i++) {
+      const c = src[i];
+      if (c === "\\") {
+        out += c + (src[i + 1] ?? "");
+        i++;
+        continue;
+      }
+      if (c === "[") {
+        inClass = true;
+      } else if (c === "]") {
+        inClass = false;
+      }
+      out += c === "." && !inClass ? "[\\s\\S]" : c;
+    }
+    return out;
   }
   validate(_ctx: ValidateContext, input: unknown): boolean {
     if (typeof input === "string") {
